@@ -164,50 +164,33 @@ def applyFilter (env : Env) (comp : Component) (currentVid : Vid) (f : IRFilter)
     (ctxs : List Ctx) : R (List Ctx) :=
   match f.op, f.right with
   | .un o, _ =>
-    filterMapR (fun c =>
-      match c.popValue with
-      | .ok (v, c') => .ok (if c'.active.isNone || Filter.applyUnary o v then some c' else none)
-      | .panic s => .panic s
-      | .fuel => .fuel) ctxs
-  | .bin o, some (.var name _) =>
-    match env.arg name with
-    | .ok right =>
-      -- the regex of a variable is compiled when the pipeline is built, before any context flows
-      match (if isRegexOp o then (R.ofOutcome "regex argument was not a valid regex"
-               (Filter.compileStaticRegex env.data.regex right)).map (fun _ => ()) else .ok ()) with
-      | .ok _ =>
-        filterMapR (fun c =>
-          match c.popValue with
-          | .ok (left, c') =>
-            if c'.active.isNone then .ok (some c')
-            else
-              match Filter.applyStatic env.data.regex o left right with
-              | .ok b => .ok (if b then some c' else none)
-              | .panic => .panic "filter operator: unreachable!"
-          | .panic s => .panic s
-          | .fuel => .fuel) ctxs
-      | .panic s => .panic s
-      | .fuel => .fuel
-    | .panic s => .panic s
-    | .fuel => .fuel
+    filterMapR (fun c => do
+      let (v, c') ← c.popValue
+      pure (if c'.active.isNone || Filter.applyUnary o v then some c' else none)) ctxs
+  | .bin o, some (.var name _) => do
+    let right ← env.arg name
+    -- the regex of a variable is compiled when the pipeline is built, before any context flows
+    let _ ← (if isRegexOp o then
+        (R.ofOutcome "regex argument was not a valid regex"
+          (Filter.compileStaticRegex env.data.regex right)).map (fun _ => ())
+      else R.ok ())
+    filterMapR (fun c => do
+      let (left, c') ← c.popValue
+      if c'.active.isNone then pure (some c')
+      else do
+        let b ← R.ofOutcome "filter operator: unreachable!" (Filter.applyStatic env.data.regex o left right)
+        pure (if b then some c' else none)) ctxs
   | .bin o, some (.tag r) =>
-    filterMapR (fun c =>
-      match tagValue env comp currentVid r c with
-      | .ok t =>
-        match c.popValue with
-        | .ok (left, c') =>
-          match t with
-          | .nonexistent => .ok (some c')
-          | .some right =>
-            if c'.active.isNone then .ok (some c')
-            else
-              match Filter.applyTagged env.data.regex o left right with
-              | .ok b => .ok (if b then some c' else none)
-              | .panic => .panic "filter operator: unreachable!"
-        | .panic s => .panic s
-        | .fuel => .fuel
-      | .panic s => .panic s
-      | .fuel => .fuel) ctxs
+    filterMapR (fun c => do
+      let t ← tagValue env comp currentVid r c
+      let (left, c') ← c.popValue
+      match t with
+      | .nonexistent => pure (some c')
+      | .some right =>
+        if c'.active.isNone then pure (some c')
+        else do
+          let b ← R.ofOutcome "filter operator: unreachable!" (Filter.applyTagged env.data.regex o left right)
+          pure (if b then some c' else none)) ctxs
   | .bin _, none => .panic "no argument present for filter"
 
 /-- `apply_local_field_filter`. -/
@@ -220,18 +203,12 @@ def applyLocalFieldFilter (env : Env) (comp : Component) (vid : Vid) (f : IRFilt
 def applyLocalFilters (env : Env) (comp : Component) (vid : Vid) :
     List IRFilter → List Ctx → R (List Ctx)
   | [], ctxs => .ok ctxs
-  | f :: fs, ctxs =>
-    match applyLocalFieldFilter env comp vid f ctxs with
-    | .ok ctxs' => applyLocalFilters env comp vid fs ctxs'
-    | .panic s => .panic s
-    | .fuel => .fuel
+  | f :: fs, ctxs => (applyLocalFieldFilter env comp vid f ctxs).bind (applyLocalFilters env comp vid fs)
 
 /-- `perform_entry_into_new_vertex`. -/
 def enterVertex (env : Env) (comp : Component) (v : IRVertex) (ctxs : List Ctx) : R (List Ctx) :=
-  match applyLocalFilters env comp v.vid v.filters (coerceIfNeeded env v ctxs) with
-  | .ok ctxs' => mapR (fun c => c.recordVertex v.vid) ctxs'
-  | .panic s => .panic s
-  | .fuel => .fuel
+  (applyLocalFilters env comp v.vid v.filters (coerceIfNeeded env v ctxs)).bind
+    (mapR fun c => c.recordVertex v.vid)
 
 /-! ### edges -/
 
@@ -242,11 +219,9 @@ def expandOne (c : Ctx) (nbrs : List VertexId) (isOptional : Bool) : List Ctx :=
 
 /-- `expand_non_recursive_edge`. -/
 def expandNonRecursive (env : Env) (e : IREdge) (ctxs : List Ctx) : R (List Ctx) :=
-  flatMapR (fun c =>
-    match c.activate e.fromVid with
-    | .ok c' => .ok (expandOne c' (env.data.nbrsOpt c'.active e.name e.params) e.optional)
-    | .panic s => .panic s
-    | .fuel => .fuel) ctxs
+  flatMapR (fun c => do
+    let c' ← c.activate e.fromVid
+    pure (expandOne c' (env.data.nbrsOpt c'.active e.name e.params) e.optional)) ctxs
 
 mutual
 /-- `unpack_piggyback`: riders first (recursively), then the context itself. -/
@@ -286,28 +261,28 @@ def recLevels (env : Env) (e : IREdge) (coerceTo : Option Name) : Nat → List P
       | none => ps
     recLevels env e coerceTo k (recExpandLevel env e ps')
 
+/-- The first step of `expand_recursive_edge` for one context. -/
+def recInit (e : IREdge) (c : Ctx) : R Ctx :=
+  (if c.active.isNone then { c with suspended := none :: c.suspended } else c).activate e.fromVid
+
+/-- Everything after the activation of the source vertex: the expansion levels, unpacking of the
+piggy-backs, un-suspension. -/
+def recFinish (env : Env) (e : IREdge) (r : Recursive) (init : List Ctx) : R (List Ctx) :=
+  mapR Ctx.ensureUnsuspended
+    (unpackList (recLevels env e r.coerceTo (r.depth - 1)
+      (recExpandLevel env e (init.map fun c => PCtx.mk c []))))
+
 /-- `expand_recursive_edge` + `post_process_recursive_expansion`. -/
 def expandRecursive (env : Env) (e : IREdge) (r : Recursive) (ctxs : List Ctx) : R (List Ctx) :=
-  match mapR (fun c =>
-      let c1 := if c.active.isNone then { c with suspended := none :: c.suspended } else c
-      c1.activate e.fromVid) ctxs with
-  | .ok init =>
-    let level1 := recExpandLevel env e (init.map fun c => PCtx.mk c [])
-    let final := recLevels env e r.coerceTo (r.depth - 1) level1
-    mapR Ctx.ensureUnsuspended (unpackList final)
-  | .panic s => .panic s
-  | .fuel => .fuel
+  (mapR (recInit e) ctxs).bind (recFinish env e r)
 
 /-- `expand_edge`. -/
 def expandEdge (env : Env) (comp : Component) (e : IREdge) (ctxs : List Ctx) : R (List Ctx) :=
   match comp.vertex? e.fromVid, comp.vertex? e.toVid with
   | some _, some toV =>
-    match (match e.recursive with
+    (match e.recursive with
       | some r => expandRecursive env e r ctxs
-      | none => expandNonRecursive env e ctxs) with
-    | .ok expanded => enterVertex env comp toV expanded
-    | .panic s => .panic s
-    | .fuel => .fuel
+      | none => expandNonRecursive env e ctxs).bind (enterVertex env comp toV)
   | _, _ => .panic "component.vertices[&vid]"
 
 /-! ### folds -/
@@ -319,90 +294,71 @@ def usizeFromValue : Value → R (Option Nat)
   | .null => .ok none
   | _ => .panic "usize_from_field_value: unexpected value kind"
 
-def usizeExpect (v : Value) : R Nat :=
-  match usizeFromValue v with
-  | .ok (some n) => .ok n
-  | .ok none => .panic "for field value to be coercible to usize"
-  | .panic s => .panic s
-  | .fuel => .fuel
+def usizeExpect (v : Value) : R Nat := do
+  match ← usizeFromValue v with
+  | some n => pure n
+  | none => .panic "for field value to be coercible to usize"
 
 def listMaxR : List Value → R (Option Nat)
   | [] => .ok none
-  | v :: vs =>
-    match usizeExpect v, listMaxR vs with
-    | .ok n, .ok (some m) => .ok (some (max n m))
-    | .ok n, .ok none => .ok (some n)
-    | .panic s, _ => .panic s
-    | _, .panic s => .panic s
-    | _, _ => .fuel
+  | v :: vs => do
+    let n ← usizeExpect v
+    match ← listMaxR vs with
+    | some m => pure (some (max n m))
+    | none => pure (some n)
 
 /-- one post-filter's contribution to `get_max_fold_count_limit` -/
 def maxLimitOf (env : Env) (f : IRFilter) : R (Option Nat) :=
   match f.left, f.op, f.right with
   | .count, .bin .equals, some (.var n _)
-  | .count, .bin .lessThanOrEqual, some (.var n _) =>
-    match env.arg n with
-    | .ok v => (usizeExpect v).map some
-    | .panic s => .panic s
-    | .fuel => .fuel
-  | .count, .bin .lessThan, some (.var n _) =>
-    match env.arg n with
-    | .ok v => (usizeExpect v).map fun k => some (k - 1)     -- saturating_sub(1)
-    | .panic s => .panic s
-    | .fuel => .fuel
-  | .count, .bin .oneOf, some (.var n _) =>
-    match env.arg n with
-    | .ok (.list vs) => listMaxR vs
-    | .ok _ => .panic "one_of argument is not a list: unreachable!"
-    | .panic s => .panic s
-    | .fuel => .fuel
+  | .count, .bin .lessThanOrEqual, some (.var n _) => do
+    let v ← env.arg n
+    let k ← usizeExpect v
+    pure (some k)
+  | .count, .bin .lessThan, some (.var n _) => do
+    let v ← env.arg n
+    let k ← usizeExpect v
+    pure (some (k - 1))     -- saturating_sub(1)
+  | .count, .bin .oneOf, some (.var n _) => do
+    match ← env.arg n with
+    | .list vs => listMaxR vs
+    | _ => .panic "one_of argument is not a list: unreachable!"
   | _, _, _ => .ok none
 
 /-- `get_max_fold_count_limit`: the tightest of the limits. -/
 def maxFoldLimit (env : Env) : List IRFilter → Option Nat → R (Option Nat)
   | [], acc => .ok acc
-  | f :: fs, acc =>
-    match maxLimitOf env f with
-    | .ok next =>
-      let acc' := match acc, next with
-        | none, _ => next
-        | some l, some r => if l > r then next else acc
-        | some _, none => acc
-      maxFoldLimit env fs acc'
-    | .panic s => .panic s
-    | .fuel => .fuel
+  | f :: fs, acc => do
+    let next ← maxLimitOf env f
+    maxFoldLimit env fs (match acc, next with
+      | none, _ => next
+      | some l, some r => if l > r then next else acc
+      | some _, none => acc)
+
+/-- one post-filter's contribution to `get_min_fold_count_limit`; `none`: not a `>=`/`>` on a
+variable, the whole limit is abandoned -/
+def minLimitOf (env : Env) (f : IRFilter) : R (Option Nat) :=
+  match f.left, f.op, f.right with
+  | .count, .bin .greaterThanOrEqual, some (.var n _) => do
+    let v ← env.arg n
+    let k ← usizeExpect v
+    pure (some k)
+  | .count, .bin .greaterThan, some (.var n _) => do
+    let v ← env.arg n
+    let k ← usizeExpect v
+    pure (some (k + 1))  -- saturating_add(1): usize::MAX is not reachable from an i64/u64 on 64-bit
+  | _, _, _ => .ok none
 
 /-- `get_min_fold_count_limit`: `none` as soon as a post-filter is not `>=`/`>` on a variable. -/
 def minFoldLimit (env : Env) : List IRFilter → Option Nat → R (Option Nat)
   | [], acc => .ok acc
-  | f :: fs, acc =>
-    match f.left, f.op, f.right with
-    | .count, .bin .greaterThanOrEqual, some (.var n _) =>
-      match env.arg n with
-      | .ok v =>
-        match usizeExpect v with
-        | .ok k =>
-          minFoldLimit env fs (match acc with
-            | none => some k
-            | some l => if l < k then some k else acc)
-        | .panic s => .panic s
-        | .fuel => .fuel
-      | .panic s => .panic s
-      | .fuel => .fuel
-    | .count, .bin .greaterThan, some (.var n _) =>
-      match env.arg n with
-      | .ok v =>
-        match usizeExpect v with
-        | .ok k0 =>
-          let k := k0 + 1     -- saturating_add(1): usize::MAX is not reachable from an i64/u64 on 64-bit
-          minFoldLimit env fs (match acc with
-            | none => some k
-            | some l => if l < k then some k else acc)
-        | .panic s => .panic s
-        | .fuel => .fuel
-      | .panic s => .panic s
-      | .fuel => .fuel
-    | _, _, _ => .ok none
+  | f :: fs, acc => do
+    match ← minLimitOf env f with
+    | some k =>
+      minFoldLimit env fs (match acc with
+        | none => some k
+        | some l => if l < k then some k else acc)
+    | none => pure none
 
 /-- `has_tag_on_fold_count`: a filter of a *parent-component vertex* uses this fold's count tag. -/
 def hasTagOnFoldCount (parent : Component) (fold : Fold) : Bool :=
@@ -413,14 +369,12 @@ def hasTagOnFoldCount (parent : Component) (fold : Fold) : Bool :=
       | _ => false
 
 /-- The effective `min_fold_size` of `compute_fold`. -/
-def effectiveMinLimit (env : Env) (parent : Component) (fold : Fold) : R (Option Nat) :=
-  match minFoldLimit env fold.post none with
-  | .ok (some m) =>
-    .ok (if fold.component.outputs.isEmpty && fold.fouts.isEmpty && !hasTagOnFoldCount parent fold
+def effectiveMinLimit (env : Env) (parent : Component) (fold : Fold) : R (Option Nat) := do
+  match ← minFoldLimit env fold.post none with
+  | some m =>
+    pure (if fold.component.outputs.isEmpty && fold.fouts.isEmpty && !hasTagOnFoldCount parent fold
          then some m else none)
-  | .ok none => .ok none
-  | .panic s => .panic s
-  | .fuel => .fuel
+  | none => pure none
 
 /-- `collect_fold_elements` on an already computed element list: `none` = the context is dropped. -/
 def collectFoldElements (elems : List Ctx) (maxL minL : Option Nat) : Option (List Ctx) :=
@@ -437,16 +391,13 @@ def importTag (env : Env) (parent : Component) (r : FieldRef) (c : Ctx) : R Ctx 
   | .ctx vid field _ =>
     match parent.vertex? vid with
     | none => .panic "parent_component.vertices[&field.vertex_id]"
-    | some _ =>
-      match c.activate vid with
-      | .ok c' =>
-        let value := env.data.propOpt c'.active field
-        let t := match c'.active with
-          | some _ => Tagged.some value
-          | none => Tagged.nonexistent
-        .ok (c'.insertTag (.ctx vid field) t)
-      | .panic s => .panic s
-      | .fuel => .fuel
+    | some _ => do
+      let c' ← c.activate vid
+      let value := env.data.propOpt c'.active field
+      let t := match c'.active with
+        | some _ => Tagged.some value
+        | none => Tagged.nonexistent
+      pure (c'.insertTag (.ctx vid field) t)
   | .fcount eid _ =>
     match c.foldCount? eid with
     | some none => .ok (c.insertTag (.fcount eid) .nonexistent)
@@ -455,42 +406,30 @@ def importTag (env : Env) (parent : Component) (r : FieldRef) (c : Ctx) : R Ctx 
 
 def importTags (env : Env) (parent : Component) : List FieldRef → Ctx → R Ctx
   | [], c => .ok c
-  | r :: rs, c =>
-    match importTag env parent r c with
-    | .ok c' => importTags env parent rs c'
-    | .panic s => .panic s
-    | .fuel => .fuel
+  | r :: rs, c => (importTag env parent r c).bind (importTags env parent rs)
 
 def removeTags : List FieldRef → Ctx → R Ctx
   | [], c => .ok c
-  | r :: rs, c =>
-    match c.removeTag r.key with
-    | .ok c' => removeTags rs c'
-    | .panic s => .panic s
-    | .fuel => .fuel
+  | r :: rs, c => (c.removeTag r.key).bind (removeTags rs)
 
 /-- `apply_fold_specific_filter` for one context. -/
 def applyPostFilter (env : Env) (parent : Component) (fold : Fold) (f : IRFilter) (c : Ctx) :
     R (Option Ctx) :=
   match c.foldCount? fold.eid with
-  | some (some n) =>
-    match applyFilter env parent fold.fromVid f [c.pushValue (.uint64 (UInt64.ofNat n))] with
-    | .ok [] => .ok none
-    | .ok (c' :: _) => .ok (some c')
-    | .panic s => .panic s
-    | .fuel => .fuel
+  | some (some n) => do
+    match ← applyFilter env parent fold.fromVid f [c.pushValue (.uint64 (UInt64.ofNat n))] with
+    | [] => pure none
+    | c' :: _ => pure (some c')
   | some none => .panic "while applying fold-specific filter, the @fold turned out to not exist: unreachable!"
   | none => .panic "ctx.folded_contexts[&fold_eid]"
 
 def applyPostFilters (env : Env) (parent : Component) (fold : Fold) :
     List IRFilter → Ctx → R (Option Ctx)
   | [], c => .ok (some c)
-  | f :: fs, c =>
-    match applyPostFilter env parent fold f c with
-    | .ok (some c') => applyPostFilters env parent fold fs c'
-    | .ok none => .ok none
-    | .panic s => .panic s
-    | .fuel => .fuel
+  | f :: fs, c => do
+    match ← applyPostFilter env parent fold f c with
+    | some c' => applyPostFilters env parent fold fs c'
+    | none => pure none
 
 mutual
 /-- all `(eid, output name)` keys of the folds nested (recursively) inside a component -/
@@ -506,6 +445,13 @@ end
 def lookupFolded (l : List ((Eid × Name) × Option Value)) (k : Eid × Name) : Option (Option Value) :=
   (l.find? (fun p => p.1.1 == k.1 && p.1.2 == k.2)).map (·.2)
 
+/-- the values of one output of the fold's component over the element contexts -/
+def foldOutputColumn (env : Env) (o : OutputDef) (es : List Ctx) : R (List Value) :=
+  mapR (fun (c : Ctx) =>
+    match c.vertexAt? o.vid with
+    | some v => R.ok (env.data.propOpt v o.field)
+    | none => R.panic "context.vertices[&vertex_id]") es
+
 /-- The values a fold contributes to `folded_values` of one surviving context. -/
 def foldOutputs (env : Env) (fold : Fold) (elems : Option (List Ctx)) :
     R (List ((Eid × Name) × Option Value)) :=
@@ -514,26 +460,17 @@ def foldOutputs (env : Env) (fold : Fold) (elems : Option (List Ctx)) :
     fold.fouts.map fun n => ((eid, n), elems.map fun es => Value.uint64 (UInt64.ofNat es.length))
   let default : Option Value := elems.map fun _ => Value.list []
   match elems with
-  | some (e0 :: erest) =>
+  | some (e0 :: erest) => do
     let es := e0 :: erest
     -- own outputs: one list per output name, aligned with the elements
-    match mapR (fun (o : OutputDef) =>
-        match mapR (fun (c : Ctx) =>
-            match c.vertexAt? o.vid with
-            | some v => R.ok (env.data.propOpt v o.field)
-            | none => R.panic "context.vertices[&vertex_id]") es with
-        | .ok vals => R.ok ((eid, o.name), some (Value.list vals))
-        | .panic s => .panic s
-        | .fuel => .fuel) fold.component.outputs with
-    | .ok own =>
-      -- nested folds' outputs: keys as they occur in the element contexts
-      let nestedKeyList := (e0.foldedValues.map (·.1))
-      let nested := nestedKeyList.map fun k =>
-        (k, some (Value.list (es.filterMap fun c =>
-          (lookupFolded c.foldedValues k).map fun ov => ov.getD Value.null)))
-      .ok (countOuts ++ own ++ nested)
-    | .panic s => .panic s
-    | .fuel => .fuel
+    let own ← mapR (fun (o : OutputDef) => do
+      let vals ← foldOutputColumn env o es
+      pure ((eid, o.name), some (Value.list vals))) fold.component.outputs
+    -- nested folds' outputs: keys as they occur in the element contexts
+    let nested := (e0.foldedValues.map (·.1)).map fun k =>
+      (k, some (Value.list (es.filterMap fun c =>
+        (lookupFolded c.foldedValues k).map fun ov => ov.getD Value.null)))
+    pure (countOuts ++ own ++ nested)
   | _ =>
     let own := fold.component.outputs.map fun o => ((eid, o.name), default)
     let nested := (nestedKeys fold.component).map fun k => (k, default)
@@ -564,6 +501,40 @@ def mergeStages : List IREdge → List Fold → Nat → R (List Stage)
     else .panic "edge and fold with the same Eid: unreachable!"
   | _ :: _, _ :: _, 0 => .fuel
 
+/-- the fold limits of `compute_fold`, computed once per fold (they do not depend on the contexts) -/
+def foldLimits (env : Env) (parent : Component) (fold : Fold) : R (Option Nat × Option Nat) := do
+  let maxL ← maxFoldLimit env fold.post none
+  let minL ← effectiveMinLimit env parent fold
+  pure (maxL, minL)
+
+/-- What happens to one context once the fold's elements are known: slot insertion, removal of
+the imported tags, post-filters, outputs. -/
+def foldFinish (env : Env) (parent : Component) (fold : Fold) (lim : Option Nat × Option Nat)
+    (c : Ctx) (computed : List Ctx) : R (Option Ctx) :=
+  match c.vertexAt? fold.fromVid with
+  | none => .panic "context.vertices[&expanding_from_vid]"
+  | some fromV =>
+    let elemsOpt : Option (Option (List Ctx)) :=
+      if fromV.isSome then (collectFoldElements computed lim.1 lim.2).map some else some none
+    match elemsOpt with
+    | none => .ok none                      -- more elements than the max limit: dropped early
+    | some elems =>
+      if (c.foldCount? fold.eid).isSome then .panic "folded_contexts.insert_or_error(..).unwrap()"
+      else do
+        let c1 := { c with foldCounts := c.foldCounts ++ [(fold.eid, elems.map List.length)] }
+        let c2 ← removeTags fold.imports c1
+        match ← applyPostFilters env parent fold fold.post c2 with
+        | some c3 => do
+          let news ← foldOutputs env fold elems
+          let c4 ← mergeFolded c3 news
+          pure (some c4)
+        | none => pure none
+
+/-- the contexts the fold's sub-pipeline starts from, for one outer context -/
+def foldStart (env : Env) (fold : Fold) (c : Ctx) : List Ctx :=
+  (env.data.nbrsOpt c.active fold.name fold.params).map fun n =>
+    { Ctx.new (some n) with importedTags := c.importedTags }
+
 mutual
 /-- `compute_component`. -/
 def computeComponent (env : Env) : Nat → Component → List Ctx → R (List Ctx)
@@ -572,115 +543,61 @@ def computeComponent (env : Env) : Nat → Component → List Ctx → R (List Ct
     match comp.vertex? comp.root with
     | none => .panic "component.vertices[&component_root_vid]"
     | some rootV =>
-      match enterVertex env comp rootV ctxs with
-      | .ok ctxs1 =>
-        match mergeStages comp.edges comp.folds (comp.edges.length + comp.folds.length) with
-        | .ok stages => runStages env fuel comp stages [comp.root] ctxs1
-        | .panic s => .panic s
-        | .fuel => .fuel
-      | .panic s => .panic s
-      | .fuel => .fuel
+      (enterVertex env comp rootV ctxs).bind fun ctxs1 =>
+      (mergeStages comp.edges comp.folds (comp.edges.length + comp.folds.length)).bind fun stages =>
+      runStages env fuel comp stages [comp.root] ctxs1
 def runStages (env : Env) : Nat → Component → List Stage → List Vid → List Ctx → R (List Ctx)
   | _, _, [], _, ctxs => .ok ctxs
   | fuel, comp, .edge e :: rest, visited, ctxs =>
-    match checkVisited visited e.fromVid e.toVid with
-    | .ok visited' =>
-      match expandEdge env comp e ctxs with
-      | .ok ctxs' => runStages env fuel comp rest visited' ctxs'
-      | .panic s => .panic s
-      | .fuel => .fuel
-    | .panic s => .panic s
-    | .fuel => .fuel
+    (checkVisited visited e.fromVid e.toVid).bind fun visited' =>
+    (expandEdge env comp e ctxs).bind fun ctxs' =>
+    runStages env fuel comp rest visited' ctxs'
   | fuel, comp, .fold f :: rest, visited, ctxs =>
-    match checkVisited visited f.fromVid f.toVid with
-    | .ok visited' =>
-      match computeFold env fuel comp f ctxs with
-      | .ok ctxs' => runStages env fuel comp rest visited' ctxs'
-      | .panic s => .panic s
-      | .fuel => .fuel
-    | .panic s => .panic s
-    | .fuel => .fuel
+    (checkVisited visited f.fromVid f.toVid).bind fun visited' =>
+    (computeFold env fuel comp f ctxs).bind fun ctxs' =>
+    runStages env fuel comp rest visited' ctxs'
 /-- `compute_fold`. -/
 def computeFold (env : Env) : Nat → Component → Fold → List Ctx → R (List Ctx)
   | fuel, parent, fold, ctxs =>
     match parent.vertex? fold.fromVid with
     | none => .panic "component.vertices[&fold.from_vid]"
     | some _ =>
-      match mapR (importTags env parent fold.imports) ctxs with
-      | .ok ctxs1 =>
-        match mapR (fun c => c.activate fold.fromVid) ctxs1 with
-        | .ok ctxs2 =>
-          match maxFoldLimit env fold.post none, effectiveMinLimit env parent fold with
-          | .ok maxL, .ok minL =>
-            filterMapR (fun c => foldOne env fuel parent fold maxL minL c) ctxs2
-          | .panic s, _ => .panic s
-          | _, .panic s => .panic s
-          | _, _ => .fuel
-        | .panic s => .panic s
-        | .fuel => .fuel
-      | .panic s => .panic s
-      | .fuel => .fuel
+      (mapR (importTags env parent fold.imports) ctxs).bind fun ctxs1 =>
+      (mapR (fun c => c.activate fold.fromVid) ctxs1).bind fun ctxs2 =>
+      (foldLimits env parent fold).bind fun lim =>
+      filterMapR (fun c => foldOne env fuel parent fold lim c) ctxs2
 /-- the body of `folded_iterator` / post-filters / `final_iterator` for one context -/
-def foldOne (env : Env) : Nat → Component → Fold → Option Nat → Option Nat → Ctx → R (Option Ctx)
-  | fuel, parent, fold, maxL, minL, c =>
-    let nbrCtxs := (env.data.nbrsOpt c.active fold.name fold.params).map fun n =>
-      { Ctx.new (some n) with importedTags := c.importedTags }
-    match computeComponent env fuel fold.component nbrCtxs with
-    | .ok computed =>
-      match c.vertexAt? fold.fromVid with
-      | none => .panic "context.vertices[&expanding_from_vid]"
-      | some fromV =>
-        let elemsOpt : Option (Option (List Ctx)) :=
-          if fromV.isSome then (collectFoldElements computed maxL minL).map some else some none
-        match elemsOpt with
-        | none => .ok none                      -- more elements than the max limit: dropped early
-        | some elems =>
-          if (c.foldCount? fold.eid).isSome then .panic "folded_contexts.insert_or_error(..).unwrap()"
-          else
-            let c1 := { c with foldCounts := c.foldCounts ++ [(fold.eid, elems.map List.length)] }
-            match removeTags fold.imports c1 with
-            | .ok c2 =>
-              match applyPostFilters env parent fold fold.post c2 with
-              | .ok (some c3) =>
-                match foldOutputs env fold elems with
-                | .ok news => (mergeFolded c3 news).map some
-                | .panic s => .panic s
-                | .fuel => .fuel
-              | .ok none => .ok none
-              | .panic s => .panic s
-              | .fuel => .fuel
-            | .panic s => .panic s
-            | .fuel => .fuel
-    | .panic s => .panic s
-    | .fuel => .fuel
+def foldOne (env : Env) : Nat → Component → Fold → Option Nat × Option Nat → Ctx → R (Option Ctx)
+  | fuel, parent, fold, lim, c =>
+    (computeComponent env fuel fold.component (foldStart env fold c)).bind
+      (foldFinish env parent fold lim c)
 end
 
 /-! ### outputs -/
 
 /-- `construct_outputs` for one context. -/
-def constructRow (env : Env) (comp : Component) (c : Ctx) : R Row :=
-  match mapR (fun (o : OutputDef) =>
+def constructRow (env : Env) (comp : Component) (c : Ctx) : R Row := do
+  let own ← mapR (fun (o : OutputDef) =>
       match c.vertexAt? o.vid with
       | some v => R.ok (o.name, env.data.propOpt v o.field)
-      | none => R.panic "context.vertices[&vertex_id]") comp.outputs with
-  | .ok own =>
-    let folded := c.foldedValues.map fun p => (p.1.2, p.2.getD Value.null)
-    let all := own ++ folded
-    let names := all.map (·.1)
-    if names.eraseDups.length != names.length then .panic "assert!(existing.is_none())"
-    else .ok (all.foldr insertSorted [])
-  | .panic s => .panic s
-  | .fuel => .fuel
+      | none => R.panic "context.vertices[&vertex_id]") comp.outputs
+  let folded := c.foldedValues.map fun p => (p.1.2, p.2.getD Value.null)
+  let all := own ++ folded
+  let names := all.map (·.1)
+  if names.eraseDups.length != names.length then .panic "assert!(existing.is_none())"
+  else pure (all.foldr insertSorted [])
 
-/-- Nesting depth of folds (the fuel `interpret` needs). -/
+/-- Nesting depth of folds is bounded by the fuel; 64 levels is far beyond any query the frontend
+numbers (the harness never nests deeper than 4). -/
 def fuelFor (_ir : IRQuery) : Nat := 64
+
+/-- The pipeline from a list of starting vertices to rows. -/
+def interpretFrom (env : Env) (ir : IRQuery) (starts : List VertexId) : R (List Row) :=
+  (computeComponent env (fuelFor ir) ir.rootComponent (starts.map fun v => Ctx.new (some v))).bind
+    (mapR (constructRow env ir.rootComponent))
 
 /-- `interpret_ir` after argument validation. -/
 def interpret (env : Env) (ir : IRQuery) : R (List Row) :=
-  let start := (env.data.start ir.rootName ir.rootParams).map fun v => Ctx.new (some v)
-  match computeComponent env (fuelFor ir) ir.rootComponent start with
-  | .ok ctxs => mapR (constructRow env ir.rootComponent) ctxs
-  | .panic s => .panic s
-  | .fuel => .fuel
+  interpretFrom env ir (env.data.start ir.rootName ir.rootParams)
 
 end TF.Engine
